@@ -314,7 +314,8 @@ fn gen_c01_resp(ctx: &mut Ctx, method: &str, last: bool) -> RespPlan {
     loop {
         let status = gen_status(ctx);
         let kind = ctx.draw(if last { 5 } else { 4 });
-        let http11 = kind == 2 || ctx.chance(3, 4);
+        // a chunked coding on an HTTP/1.0 response is not effective (then Content-Length / close)
+        let http11 = (kind == 2 && ctx.chance(7, 8)) || ctx.chance(3, 4);
         let (cl, te) = match kind {
             0 => (ClSpec::Absent, None),
             1 | 3 => (
@@ -746,7 +747,73 @@ pub fn c06(ctx: &mut Ctx) -> R {
 
 // ============================================================================================ C10
 
+/// A connection whose message boundaries were lost is never offered for reuse: the peer stops
+/// (or closes) inside a 3xx head after its Location line. If the flow nevertheless completes
+/// (the crate's lenient handling of truncated redirects, known finding D6 of C05) the verdict
+/// must be must-close, whatever Connection header the truncated head carried.
+fn c10_lost_boundaries(ctx: &mut Ctx) -> R {
+    set_observed(false);
+    let mut cfg = gen_valid_req(ctx, false, true);
+    cfg.orig.retain(|(n, _)| n != "connection");
+    if ctx.chance(1, 3) {
+        cfg.orig.push(("connection".into(), b"keep-alive".to_vec()));
+    }
+    cfg.version = 11;
+    if !crate::refs::method_ok_for_version(&cfg.method, true) {
+        cfg.method = "GET".into();
+    }
+    let body = gen_req_body(ctx, &cfg, true);
+    let status = *ctx.pick(&[301u16, 302, 303, 307, 308, 300]);
+    let mut fields: Vec<Field> = Vec::new();
+    match ctx.draw(3) {
+        0 => fields.push(Field::plain("Connection", "keep-alive")),
+        1 => fields.push(Field::plain("connection", "Keep-Alive")),
+        _ => {}
+    }
+    for _ in 0..ctx.range(0, 2) {
+        fields.push(gen_field(ctx));
+    }
+    fields.push(Field::plain("Location", *ctx.pick(&["/next", "http://b.test/x", "../up"])));
+    let after = ctx.range(0, 3);
+    for i in 0..after {
+        fields.push(if i == 0 && ctx.flip() { Field::plain("Content-Length", "0") } else { gen_field(ctx) });
+    }
+    let head = RespHead { http11: true, status, reason: b"Moved".to_vec(), fields };
+    let rd = head.render();
+    let loc_idx = head.fields.iter().position(|f| f.lname() == "location").unwrap();
+    let loc_end = rd.line_ends[loc_idx + 1];
+    let cut = ctx.range(loc_end, rd.bytes.len() - 1);
+    let stream = rd.bytes[..cut].to_vec();
+    let eof = ctx.flip();
+    ctx.sample(|| format!("{} -> {} head of {} bytes cut at {} (Location line ends at {}), peer then {}", cfg.summary(), status, rd.bytes.len(), cut, loc_end, if eof { "closes" } else { "stalls" }));
+    ctx.count("f:conn_close_mid_head_after_location");
+    let start = match make_prepare(&cfg) {
+        Ok(f) => f,
+        Err(e) => fail!("FOREIGN", "", "cannot build flow: {}", e),
+    };
+    set_observed(true);
+    let arrivals = gen_arrival(ctx, stream.len(), &[loc_end], 30).0;
+    let ex = Exchange { prop: "C10", body: &body, policy: Policy::draw(ctx, AwaitPolicy::GiveUpAtOnce), server: ServerPlan { msgs: vec![], close_after: eof }, fixed_stream: Some(FixedStream { stream: &stream, consumed: 0, visible: 0, arrivals }) };
+    let obs = ex.run(ctx, start)?;
+    ctx.sig3(7777, obs.edges.len() as u64, obs.terminal.name().len() as u64);
+    ctx.nontrivial = true;
+    match &obs.terminal {
+        Terminal::Redirect(_) | Terminal::Cleanup(_) => {
+            ctx.count("p:completed_on_truncated_redirect");
+            if obs.must_close != Some(true) {
+                fail!("C10.reuse_after_lost_boundaries", "", "the {} head was cut at {} of {} bytes (after its Location line) and the flow completed in {}, but the connection is offered for reuse (reason {:?})", status, cut, rd.bytes.len(), obs.terminal.name(), obs.reason);
+            }
+            ensure!(obs.reason.is_some(), "C10.reason_mismatch", "must_close without a reason");
+        }
+        _ => ctx.count("p:stuck_on_truncated_redirect"),
+    }
+    Ok(())
+}
+
 pub fn c10(ctx: &mut Ctx) -> R {
+    if ctx.sub == 3 {
+        return c10_lost_boundaries(ctx);
+    }
     set_observed(false);
     // ---- request with drawn close-relevant features
     let mut cfg = gen_valid_req(ctx, true, true);
@@ -776,7 +843,7 @@ pub fn c10(ctx: &mut Ctx) -> R {
     let plan = loop {
         let status = if ctx.chance(1, 3) { *ctx.pick(&[301u16, 302, 303, 307, 308, 304]) } else { gen_status(ctx) };
         let kind = if all_five { 4 } else { ctx.draw(5) };
-        let http11 = if all_five { ctx.flip() } else { kind == 2 || ctx.chance(2, 3) };
+        let http11 = if all_five { ctx.flip() } else { (kind == 2 && ctx.chance(3, 4)) || ctx.chance(2, 3) };
         let (cl, te) = match kind {
             0 => (ClSpec::Absent, None),
             1 | 3 => (ClSpec::Num(ctx.range(0, 40) as u64), None),
@@ -937,6 +1004,9 @@ pub fn c11(ctx: &mut Ctx) -> R {
         cfg.orig.retain(|(n, _)| n != "transfer-encoding");
         cfg.added.retain(|(n, _)| n != "transfer-encoding");
     }
+    if ctx.chance(1, 4) {
+        cfg.orig.push(("connection".into(), b"close".to_vec()));
+    }
     let body = gen_req_body(ctx, &cfg, true);
     // ---- peer behaviour
     let script = ctx.draw(4); // 0,1 = 100 then final; 2 = refuse; 3 = silent
@@ -955,7 +1025,7 @@ pub fn c11(ctx: &mut Ctx) -> R {
         let nf = if ctx.chance(1, 3) { 0 } else { ctx.range(0, 3) };
         // a bare head (no fields at all) is part of the quantifier
         let (cl, te) = if nf == 0 && ctx.chance(1, 2) { (ClSpec::Absent, None) } else { (cl, te) };
-        let spec = RespSpec { status, http11: ctx.chance(3, 4), cl, te, conn: if ctx.chance(1, 6) { vec!["close"] } else { vec![] }, generic_fields: nf, location: if (300..400).contains(&status) && ctx.flip() { vec!["/r".into()] } else { vec![] }, location_raw: vec![], close_len: ctx.range(0, 60) };
+        let spec = RespSpec { status, http11: ctx.chance(3, 4), cl, te, conn: if ctx.chance(1, 4) { vec!["close"] } else { vec![] }, generic_fields: nf, location: if (300..400).contains(&status) && ctx.flip() { vec!["/r".into()] } else { vec![] }, location_raw: vec![], close_len: ctx.range(0, 60) };
         let p = build_resp(ctx, &cfg.method, &spec);
         if !matches!(p.truth, RF::DontCare | RF::Error) {
             break p;
